@@ -22,7 +22,11 @@ def doc(term: Any, k: int) -> float:
         return float(term[1])
     if op == "exp":
         _, m, b, mx, mn = term
-        return max(max(0.0, mn), min(m * b ** (k - 1), mx))
+        try:
+            raw = m * b ** (k - 1)
+        except OverflowError:  # documented as saturating: the term is then "infinitely large", i.e. clamped to max
+            raw = float("inf") if m > 0 else 0.0
+        return max(max(0.0, mn), min(raw, mx))
     if op == "incr":
         _, s, i, mx = term
         return max(0.0, min(s + i * (k - 1), mx))
@@ -30,7 +34,11 @@ def doc(term: Any, k: int) -> float:
         return float(term[1])
     if op == "exp_jitter":
         _, init, b, mx, _j = term
-        return min(init * b ** (k - 1), mx)
+        try:
+            raw = init * b ** (k - 1)
+        except OverflowError:
+            raw = float("inf") if init > 0 else 0.0
+        return min(raw, mx)
     if op == "rand_exp":
         _, m, b, mx, mn = term
         return float(mn)
@@ -119,6 +127,8 @@ def strategies(tier: str) -> list[Any]:
         for j in (0.0, 1.0):
             out.append(("exp_jitter", 1.0, b, 8.0, j))
     out += [("rand_exp", 1.0, 2.0, 8.0, 0.0), ("rand_exp", 1.0, 2.0, 8.0, 0.5)]
+    # a base so large that the exponential term leaves the float range within a few retries (documented: it saturates)
+    out += [("exp", 1.0, 1e155, 0.75, 0.0), ("exp", 2.0, 1e200, 1.5, 0.25), ("exp_jitter", 1.0, 1e155, 0.75, 0.0)]
     fx = [("fixed", 5), ("fixed", 1), ("fixed", 3)]
     import itertools
 
